@@ -152,6 +152,16 @@ func collection(v any) []any {
 	return nil
 }
 
+// isCollection returns true if v is a JSON object or array, including an
+// empty one, for which collection returns nil.
+func isCollection(v any) bool {
+	switch v.(type) {
+	case map[string]any, []any:
+		return true
+	}
+	return false
+}
+
 // executeAnyItem is the implementation of several jsonpath nodes:
 //
 //   - ast.AnyNode (.** accessor)
@@ -192,7 +202,7 @@ func (exec *Executor) executeAnyItem(
 	for _, v := range value {
 		col := collection(v)
 
-		if level >= first || (first == math.MaxUint32 && last == math.MaxUint32 && col == nil) {
+		if level >= first || (first == math.MaxUint32 && last == math.MaxUint32 && !isCollection(v)) {
 			// check expression
 			switch {
 			case node != nil:
